@@ -111,7 +111,7 @@ CHECKS = {
     ),
     "C14": dict(
         level="model_checking", design="§4 C14",
-        technique="exhaustive interleaving exploration of three client connections (real Server.handle_connection coroutines on the virtual loop) over a 21-action misbehaviour alphabet",
+        technique="exhaustive interleaving exploration of three client connections (real Server.handle_connection coroutines on the virtual loop) over a 26-action misbehaviour alphabet",
         text="Healthy synchronous client H [enqueue a; enqueue b(dep a); states], late healthy client N [enqueue c; states], misbehaving client M performing every sequence of <=1 action (deviation bound 1) and selected sequences of 2 (bound 0) [thorough: all pairs, bounds 2/1] from: garbage, empty line, {}, list, string, unknown kind, enqueue missing/extra field, deps unknown id / wrong type / int, state/cancel of unknown id, cancel of a string id, cancel of H's task, invalid UTF-8, half line + EOF, EOF, reset, failing drain, well-formed enqueue. "
         "Checked: ids distinct and answered with the task's own id; every task_states answer equals the true table when written; H and N got every owed answer; every accepted task final and admissible. Real-socket tier: a real worker pool (start_cluster in its own process, TCP) receives every misbehaviour sequence of length <=1 (thorough 2) from an 18-entry byte-level alphabet (incl. a 70 kB line, invalid UTF-8, half line) x {close, reset, abandon} while gwf's real Client submits and polls before and after.",
         note="Connections are StreamReaders fed by the explorer; real sockets only in the real-socket tier.",
@@ -157,6 +157,30 @@ CHECKS = {
 PENDING = {
 }
 
+# what was added to each check after its description above was written (seed waves 4-10; DESIGN §11b)
+ADDED = {
+    "C01": "CLI part: a dry run and a run whose submission the scheduler rejects between two `status` calls change nothing; non-sequence containers (dict views, UserDict, mappingproxy, re-iterables).",
+    "C02": "CLI sub-bound through the real `gwf run <selection>` incl. patterns matching nothing.",
+    "C03": "9 spellings (incl. trailing slash), 9 container shapes (incl. UserDict, mappingproxy, pathlib and non-pathlib path objects), two file names differing only in Unicode normal form, absolute-but-unnormalised working dirs, a working directory reached through a symbolic link on disk, `gwf info NAME`; thorough: all 4-target assignments.",
+    "C04": "Relative `..` spellings, reconvergent layered DAGs, real-file-system input kinds (file, directory, symlinks, dangling, symlink loop, a path below a regular file), stale logs of removed targets in the CLI family.",
+    "C05": "Shortcut workflows (redundant edge whose far end sorts later), mixed-command histories, local backend through gwf's real Client, fresh-process tier.",
+    "C06": "Shortcut workflow; jobs that give outputs the time stamp of their newest input (ties); local backend with all exit orders.",
+    "C07": "Workflow written top-down (dependents defined first); one scheduler step before the k-th scheduler command of a running `gwf run` (prerequisite fails / is cancelled / finishes while gwf is submitting); local backend.",
+    "C08": "Requeued jobs, sacct consulted when squeue fails, status as an action in histories, local backend (knock-on rows of a stale-id target are attributed to the known id-reuse finding).",
+    "C09": "Write faults (the k-th open-for-writing of the run fails with ENOSPC, incl. LSF script copies), crash point right after the rename that publishes a state file, a successful bsub whose answer is surrounded by lines of a site's submission filter, in-run duplicate check, accounting off, local backend (connection reset / reply lost at every request).",
+    "C10": "Falsy option values, unopenable log paths as observations, bash executions with stdin=/dev/null.",
+    "C11": "A dependent that starts after its dependency was cancelled while unfinished, a task depending on an id the pool never issued (number / string form of a live id), log-write failure of a dependency with non-zero exit, negative exit codes.",
+    "C12": "Capacity probe at every horizon (cores+1 fresh tasks: exactly `cores` run at once, all run), per-task log-write failures followed by more ready tasks than cores, SIGTERM-only processes count as live.",
+    "C13": "Process groups with a member that ignores SIGTERM (virtual and real tier), the pool's clock owned by the loop, background commands outliving the shell (real tier), output completeness (real tier).",
+    "C14": "26 actions (float ids, an unstartable task, a client that never reads its answers), task_state answers validated, final-state oracle for every accepted task, capacity probe; socket tier: flooding client that never reads, cases carry the pool's history.",
+    "C15": "Commands started from a sub-directory / with -f (decoys of the same relative names), a declared output that is a directory with other files inside, a declared output that is a symlink to an unrelated file.",
+    "C16": "Outputs in missing sub-directories, outputs that are symbolic links (to a stale / fresh / missing file), shortcut workflows; re-stamping only what the kernel really stamped and never times a program chose explicitly.",
+    "C17": "One target selected twice (overlapping patterns, same name twice), any change to a non-selected non-downstream task is collateral (local), failing cancel with empty stderr, local backend incl. stale ids.",
+    "C18": "18 actions (a failing job); every ordered pair of 15 white-space/case variants of one spec (recorded by a real touch, edited, judged by status and run on the spec text gwf itself holds); 'enabled' = what the user last set.",
+    "C19": "cmd family: eleven commands from the project root, a nested directory and an unrelated directory with -f compared differentially (decoy files in both); workflow files named gwf_pipeline.py / flow-1.py; project reached through a symlink; map() over tuples, iterators, generators, dict keys; naming function returning duplicates; C1 control characters.",
+    "C20": "Global options (-b, -v, --no-color) combined with config set/unset/get; float-looking and JSON-looking text values; the accounting setting checked on `status` after `run` and calibrated against accounting on.",
+}
+
 ALL = [f"C{i:02d}" for i in range(1, 21)]
 
 
@@ -174,7 +198,7 @@ def build():
                 evidence_file=f"/verif/evidence/{cid}.json",
                 replay_cmd_template=f"./check {cid} --replay {{path}}",
                 engine=c.get("engine", "mc"),
-                level_claimed=dict(category=c["level"], text=c["text"], design_ref=c["design"]),
+                level_claimed=dict(category=c["level"], text=c["text"] + (" Added later: " + ADDED[cid] if cid in ADDED else ""), design_ref=c["design"]),
                 level_note=c["note"],
                 technique=c["technique"],
             )
